@@ -65,6 +65,11 @@ func (self ValueAnyObject) Display() (string, *Interrupt) {
 }
 
 func (self ValueAnyObject) IsEqual(other Value) (bool, *Interrupt) {
+	// values of different kinds may meet where the static type is `any` (inside an option, an any-object)
+	if other.Kind() != self.Kind() {
+		return false, nil
+	}
+
 	otherObj := other.(ValueAnyObject)
 
 	// both objects need to have the same set of keys
